@@ -115,7 +115,12 @@ def run(ctx):
         a = nc.gen_tree(impl, rng, rng.choice([1, 3, 5]))
         va = of_impl(a)
         T = nc.counter(impl)
-        b = pickle.loads(pickle.dumps(a))
+        try:
+            b = pickle.loads(pickle.dumps(a))
+        except Exception as e:  # noqa
+            ctx.violation('impl-violation', op='pickle', input=json.dumps(shape_of(va)), observed=f'exception {type(e).__name__}: {e}',
+                          expected='the same tree')
+            continue
         vb = of_impl(b)
         nt = va[0] == 'T' and len(va[2]) >= 2
         ctx.case(['pickle', shape_of(va)], nt)
